@@ -29,6 +29,15 @@ import Bng.Proof.DhcpTerm
                              relayed REQUEST (KF_dhcp4_establish_race_aftereffect_witness)
     shutdown                 KNOWN KF-dhcp4-shutdown-residue: Server.Start only closes the socket; every live session
                              keeps all of its resources and gets no Accounting-Stop (KF_dhcp4_shutdown_witness)
+    an install that FAILS    (`Op.fault`: QoS egress / ingress, subscriber_nat, subscriber_pools, circuit_id_map or
+                             circuit_id_subscribers has no free slot; handleRequest logs the error and carries on): the
+                             session lives with a partial set of entries and every row above holds all the same - the
+                             fault ops are operations of `Op`, every theorem quantifies over them (partial_cache_install)
+    a removal that FAILS     (`OpX.wfault`: every write through the Loader's handle of a cache map fails)
+                             KNOWN KF-cache-delete-ignored: handleRelease logs the error, removeFromFastPathCache and the
+                             renewal under another circuit-id do not even look at it - the entry outlives its session
+                             and the fast path keeps answering from it (KF_cache_delete_ignored_witness,
+                             _renewal_witness); residue_free_partial: everything is proved while no map is write-protected
 
     F   = was finding D46 (the cell was residue on the unfixed code: D46_decline_witness / D46_expiry_witness), fixed in
           /repo by ff76ae1 (DECLINE) and 35938e6 (expiry): both now call releaseSessionResources like RELEASE
@@ -277,11 +286,12 @@ theorem establishment_split_is_request (radius : Bool) (lt : Nat) (ops : List Op
     | (s1, none) => request (after radius lt ops) mac r cid = (after radius lt ops, .nak) ∧ s1 = after radius lt ops :=
   request_split (inv_reachable radius lt ops) mac r cid
 
-/-- histories without a raced establishment -/
+/-- histories without a raced establishment and without a write-protected cache map -/
 def noRace (ops : List OpX) : Bool := ops.all fun o => match o with
   | .op _ => true
   | .disc _ _ => true
   | .estGap _ _ _ _ => false
+  | .wfault _ _ => false
 
 /-- without a raced establishment the real server's operations (`OpX`, which consult the circuit-id index) are the
     operations of the theorems: the index never holds anything the lease table does not -/
@@ -306,9 +316,10 @@ theorem noRace_is_atomic (s : State) (hs : s.stale = []) (ops : List OpX) (hn : 
       show runX (stepX s (.disc m cid)).1 rest = run (step s (.disc m)).1 ops'
       rw [he, e]
     | estGap a b c d => simp [noRace] at hn
+    | wfault a b => simp [noRace] at hn
 
-/-- what IS proved at full generality: in every history in which no REQUEST is raced by a termination (the negation
-    of the finding's clause) the state is one the theorems above speak about - so whichever termination ends a
+/-- what IS proved at full generality: in every history in which no REQUEST is raced by a termination and no cache map
+    is write-protected (the negation of the two findings' clauses) the state is one the theorems above speak about - so whichever termination ends a
     session leaves nothing of it and closes its accounting session with exactly one Stop -/
 theorem residue_free_partial (radius : Bool) (lt : Nat) (ops : List OpX) (hn : noRace ops = true) (m : Nat) (l : Lease)
     (hl : lookup (runX (init radius lt) ops).leases m = some l) (t : Term) (d : Bool)
@@ -348,6 +359,75 @@ theorem KF_dhcp4_establish_race_renewal_witness :
     lookup s'.leases 1 = none ∧ 2 ∈ s'.pool.unavailable ∧ 2 ∉ s'.nat ∧ 2 ∉ s'.qos ∧
     1 ∈ s'.kMac ∧ (1, 2) ∈ s'.kCid ∧ (1, 2) ∈ s'.kHash ∧ lookup s'.acct 1 = some ⟨1, 1, 1⟩ := by
   decide
+
+/-! ### installs and removals that fail -/
+
+/-- An install that fails half-way (C3): with subscriber_pools full the new session is ACKed without its MAC key, with
+    circuit_id_map full without its hash key, … - a PARTIAL cache set.  The fault ops are operations of `Op`, so
+    `residue_free`, `no_orphans`, `idempotent`, … hold for these histories as for all others; here the instance: the
+    RELEASE of such a session leaves nothing, and a renewal once the map has room again completes the set. -/
+theorem partial_cache_install :
+    (let s := after true 300 [.fault 3 true, .fault 4 true, .req 1 2 (some 1)]
+     (lookup s.leases 1).isSome ∧ 1 ∉ s.kMac ∧ (1, 1) ∈ s.kCid ∧ (1, 1) ∉ s.kHash ∧
+     (let s' := release s 1
+      s'.kMac = [] ∧ s'.kCid = [] ∧ s'.kHash = [] ∧ s'.qos = [] ∧ s'.nat = [] ∧ lookup s'.pool.allocated 1 = none) ∧
+     (let s'' := (step (step s (.fault 3 false)).1 (.req 1 2 (some 1))).1
+      1 ∈ s''.kMac ∧ (1, 1) ∉ s''.kHash)) ∧
+    -- a renewal under another circuit-id while circuit_id_subscribers is full: the Delete of the old entry leaves the
+    -- slot the Put of the new one takes
+    (let s := after true 300 [.req 1 2 (some 1), .fault 5 true, .req 1 2 (some 2)]
+     s.kCid = [(1, 2)] ∧ s.kHash = [(1, 2)]) := by
+  decide
+
+/-- known finding KF-cache-delete-ignored.  THE DEFECT: while the Loader's handle of a cache map is write-protected
+    every Delete fails; handleRelease only logs that, removeFromFastPathCache (DECLINE, expiry) and the renewal that
+    drops the old circuit-id's entries do not look at the result.  The session ends - lease gone, address free, QoS /
+    NAT removed, Accounting-Stop sent - and its subscriber_pools and circuit_id_subscribers entries stay: the fast
+    path keeps answering that client from them.  Nothing removes them later: not the map becoming writable again,
+    not a cleanup pass, not a second RELEASE or DECLINE of the client (it has no lease any more). -/
+theorem KF_cache_delete_ignored_witness :
+    let s' := runX (init true 300) [.op (.req 1 2 (some 1)), .wfault 3 true, .wfault 5 true, .op (.term (.rel 1))]
+    let s'' := runX s' [.wfault 3 false, .wfault 5 false, .op (.tick 1000), .op (.term (.cleanup [])),
+                        .op (.term (.rel 1)), .op (.term (.dec 1 2))]
+    lookup s'.leases 1 = none ∧ lookup s'.pool.allocated 1 = none ∧ 2 ∈ s'.pool.avail ∧ s'.qos = [] ∧ s'.nat = [] ∧
+    lookup s'.acct 1 = some ⟨1, 1, 1⟩ ∧
+    1 ∈ s'.kMac ∧ (1, 1) ∈ s'.kCid ∧ (1, 1) ∉ s'.kHash ∧
+    1 ∈ s''.kMac ∧ (1, 1) ∈ s''.kCid := by
+  decide
+
+/-- the same in a renewal under another circuit-id (the old circuit-id's entries are never looked at again), and by
+    DECLINE and expiry -/
+theorem KF_cache_delete_ignored_renewal_witness :
+    (let s' := runX (init true 300) [.op (.req 1 2 (some 1)), .wfault 4 true, .op (.req 1 2 (some 2)), .wfault 4 false,
+                                     .op (.term (.rel 1))]
+     lookup s'.leases 1 = none ∧ s'.kMac = [] ∧ s'.kCid = [] ∧ s'.kHash = [(1, 1)]) ∧
+    (let s' := runX (init true 300) [.op (.req 1 2 none), .wfault 3 true, .op (.term (.dec 1 2))]
+     lookup s'.leases 1 = none ∧ 2 ∈ s'.pool.unavailable ∧ 1 ∈ s'.kMac) ∧
+    (let s' := runX (init true 300) [.op (.req 1 2 none), .wfault 3 true, .op (.tick 301), .op (.term (.cleanup []))]
+     lookup s'.leases 1 = none ∧ 2 ∈ s'.pool.avail ∧ 1 ∈ s'.kMac) := by
+  decide
+
+/-- write-protecting a map and lifting the protection again while nothing is written is the identity: the fault op has
+    no effect of its own -/
+theorem wfault_alone_is_identity (radius : Bool) (lt : Nat) (ops : List Op) (w : Nat) :
+    runX (run (init radius lt) ops) [.wfault w true, .wfault w false] = run (init radius lt) ops := by
+  have hI := inv_reachable radius lt ops
+  have hst : (run (init radius lt) ops).stale = [] := by
+    have : ∀ (ops : List Op) (s : State), s.stale = [] → (run s ops).stale = [] := by
+      intro ops
+      induction ops with
+      | nil => intro s h; exact h
+      | cons o rest ih => intro s h; exact ih _ ((step_stale s o).trans h)
+    exact this ops _ rfl
+  generalize run (init radius lt) ops = s at hI hst
+  have h1 : fixStale (setRo s w true) = setRo s w true := fixStale_nil hst
+  have h2 : fixStale (setRo (setRo s w true) w false) = setRo (setRo s w true) w false := fixStale_nil hst
+  simp only [runX, List.foldl, stepX, h1, h2]
+  have hro := hI.ro
+  cases s
+  simp only [setRo] at hro ⊢
+  subst hro
+  simp [rm, ins]
 
 /-! ### non-vacuity: the hypotheses are reachable -/
 
